@@ -10,13 +10,14 @@ theorem run_eq_some_getD {c : Cfg} {acts : List Act} (h : (run c init acts).isSo
   | some s => simp
 
 /-! ### classification of program counters -/
-def CPc.isWrite : CPc → Bool | .write _ _ _ => true | _ => false
+/-- the closure has won the attempt's flag and has not yet published (stages hook4, write) -/
+def CPc.isWrite : CPc → Bool | .hook4 _ _ _ | .write _ _ _ => true | _ => false
 def CPc.fin : CPc → Bool | .closing _ | .closed => true | _ => false
-def CPc.afterCas : CPc → Bool | .write _ _ _ | .closing _ | .closed => true | _ => false
+def CPc.afterCas : CPc → Bool | .hook4 _ _ _ | .write _ _ _ | .closing _ | .closed => true | _ => false
 def CPc.pair? : CPc → Option (Val × Err)
-  | .returned _ v e | .hook1 _ v e | .cas _ v e | .write _ v e => some (v, e)
+  | .returned _ v e | .hook1 _ v e | .cas _ v e | .hook4 _ v e | .write _ v e => some (v, e)
   | _ => Option.none
-def CPc.live : CPc → Bool | .hook1 _ _ _ | .cas _ _ _ | .write _ _ _ => true | _ => false
+def CPc.live : CPc → Bool | .hook1 _ _ _ | .cas _ _ _ | .hook4 _ _ _ | .write _ _ _ => true | _ => false
 def CPc.started : CPc → Bool | .none | .queued | .taken _ => false | _ => true
 
 def TPc.pre : TPc → Bool
@@ -315,6 +316,24 @@ theorem ok_wCheck {c : Cfg} {now qlen k a : Nat} {w v : Nat} {hon : Bool} {e : E
 
 theorem ok_hook1 {c : Cfg} {now qlen k a : Nat} {w v : Nat} {hon : Bool} {e : Err} {t t' : Task} (hc : c.old = false) (ok : TaskOK t)
     (h : tstep c now qlen t (.hook1 k a) = some t') : TaskOK t' := by
+  simp only [tstep, hc, Bool.false_eq_true, ↓reduceIte] at h
+  (repeat' split at h) <;> cases h
+  all_goals
+    have ax := ok.atts a
+    have hlt : a < t.att := lt_of_pc ok (a := a) (by simp_all)
+    have hw := ok.writeW a
+    have hpa := ok.past a
+    have hcu := fun h => ok_cur ok (a := a) h
+    refine ok_setAt ok a _ t.result t.err t.inv ?_ hlt ?_ ?_ ?_ ?_ ?_ ?_
+    all_goals simp_all [AttOK, CPc.isWrite, CPc.fin, CPc.afterCas, CPc.pair?, CPc.live, CPc.started]
+    all_goals (try omega)
+    all_goals (try (intro _; omega))
+    all_goals
+      have h1 : a + 1 = t.att := by omega
+      cases hp : t.pc <;> simp_all [TPc.preDecide, TPc.waiting, TPc.post, TPc.fin]
+
+theorem ok_hook4 {c : Cfg} {now qlen k a : Nat} {w v : Nat} {hon : Bool} {e : Err} {t t' : Task} (hc : c.old = false) (ok : TaskOK t)
+    (h : tstep c now qlen t (.hook4 k a) = some t') : TaskOK t' := by
   simp only [tstep, hc, Bool.false_eq_true, ↓reduceIte] at h
   (repeat' split at h) <;> cases h
   all_goals
